@@ -243,7 +243,7 @@ type pairFirst struct {
 }
 
 func checkC20(c *Check) {
-	c.Rule = "TLC (GraphMC.tla over Graph.tla) enumerates every graph of 3 nodes with ordered out-degree <= 2 (2197 graphs; node 1 is the root): the marshaler's walk modelled as a depth-first machine terminates (Termination) and marks every shared node once (Counts); each graph is realised with real Go pointers in five layouts (pointer fields, slices padded to 5 and 9 elements, maps of pointers, mixed, and a recursive map type whose maps are the nodes themselves), marshaled with recursion support to CBE and CTE (watchdog), the number of markers / references compared with the model, unmarshaled, and the pointer graph's canonical shape (numbering by first visit, pointer identity) compared. Plus wide sharing (up to 300 shared nodes), pointers to a struct and to its first field, and shared containers. non-trivial = graph has a shared node or cycle; distinct = (graph, layout, format)"
+	c.Rule = "TLC (GraphMC.tla over Graph.tla) enumerates every graph of 3 nodes with ordered out-degree <= 2 (2197 graphs; node 1 is the root): the marshaler's walk modelled as a depth-first machine terminates (Termination) and marks every shared node once (Counts); each graph is realised with real Go pointers in five layouts (pointer fields, slices padded to 5 and 9 elements, maps of pointers, mixed, and a recursive map type whose maps are the nodes themselves), marshaled with recursion support to CBE and CTE (watchdog), the number of markers / references compared with the model, unmarshaled, and the pointer graph's canonical shape (numbering by first visit, pointer identity) compared. Plus wide sharing (up to 1500 shared nodes), one node or map referenced up to 2500 times (more references than MaxContainerDepth), pointers to a struct and to its first field, and shared containers. non-trivial = graph has a shared node or cycle; distinct = (graph, layout, format)"
 	c.Assumptions = []string{"harness shape extraction by pointer identity", "TLC", "Go arrays of pointers and sub-slice aliasing are not generated"}
 	cfg := configuration.New()
 	cfg.Iterator.RecursionSupport = true
@@ -285,7 +285,7 @@ func checkC20(c *Check) {
 		}
 	}
 	// wide sharing: N leaves, each referenced from a slice and from a map
-	for _, n := range []int{1, 10, 255, 256, 257, 300} {
+	for _, n := range []int{1, 10, 255, 256, 257, 300, 1500} {
 		root := &gNode{ID: 0, M: map[string]*gNode{}}
 		for i := 0; i < n; i++ {
 			leaf := &gNode{ID: i + 1}
@@ -293,6 +293,22 @@ func checkC20(c *Check) {
 			root.M[fmt.Sprintf("k%04d", i)] = leaf
 		}
 		graphRoundTrip(c, cfg, root, shape, fmt.Sprintf("%d leaves each shared by a slice and a map", n), n, n, fmt.Sprint("wide", n))
+	}
+	// one shared node referenced many times (more references than the container depth limit):
+	// through pointers, and a shared map referenced as a map value
+	for _, n := range []int{999, 1001, 2500} {
+		shared := &gNode{ID: 1}
+		root := &gNode{ID: 0}
+		for i := 0; i < n; i++ {
+			root.Kids = append(root.Kids, shared)
+		}
+		graphRoundTrip(c, cfg, root, shape, fmt.Sprintf("one node referenced %d times from a slice", n), 1, n-1, fmt.Sprint("manyrefs", n))
+		sm := gMap{"z": nil}
+		mroot := gMap{}
+		for i := 0; i < n; i++ {
+			mroot[fmt.Sprintf("k%04d", i)] = sm
+		}
+		graphRoundTrip(c, cfg, mroot, mapGraphShape, fmt.Sprintf("one map referenced %d times as a map value", n), 1, n-1, fmt.Sprint("manymaprefs", n))
 	}
 	// a pointer to a struct and a pointer to its first field share an address
 	p := &pairFirst{First: 7, Second: "s"}
